@@ -12,6 +12,7 @@ interpreter never meets a construct it has no meaning for.
 -/
 import VaxisModel.Lemmas.InputBodyArms3
 import VaxisModel.Props.C03
+import VaxisModel.Lemmas.CursorBody
 
 namespace VaxisModel.Props.C03Body
 open VaxisModel.Model.GoBody VaxisModel.Model.Input VaxisModel.Model.InputBody VaxisModel.Model.InputLoop
@@ -132,6 +133,26 @@ theorem lts_input_is_body (p : Params) (s : Sys) (q : Seq) (h : s.pend = []) :
   | error e => cases e; simp [ofModel]
   | ok r => obtain ⟨v, l⟩ := r; simp [ofModel, List.map_map, Function.comp_def]
 
+
+/-! ## `CursorPosition` interpreted from the source -/
+
+/-- **`CursorPosition()` run on its regenerated body = the model**, whichever case of its final
+`select` fires and whatever pair is received: it drops a stale answer (non-blocking receive on
+`chCursorPos`), raises the request flag, writes `DSR 6`, arms a 50 ms timer; if the timer fires
+first it lowers the flag and returns `(-1, -1)`, otherwise it receives once and returns
+`(row-1, col-1)` — the labels `cursorDrain`, `cursorCall`, `cursorTimeout` (with the flag lowered),
+`cursorRecv` of the LTS, in this order; no node of the body is unknown to the translator. -/
+theorem cursorPosition_body_eq_model (fired : Bool) (r c : Int) :
+    VaxisModel.Model.CursorBody.runCp ⟨fired, [r, c]⟩ = .ok (VaxisModel.Model.CursorBody.cursorPositionModel fired r c) ∧
+    Gen.InputBody.cp.clean = true :=
+  ⟨VaxisModel.Lemmas.CursorBody.cp_eq fired r c, by decide⟩
+
+/-- The parameters the LTS reads from the statement strings of `CursorPosition` (`cp_stmts`) agree
+with the interpreted body: it starts with the drain, and its time-out branch lowers the flag. -/
+theorem cursor_lts_params_agree_with_body :
+    cursorDrainGen = true ∧ cursorTimeoutResetsGen = true ∧
+    (VaxisModel.Model.CursorBody.cursorPositionModel true 0 0).1.head? = some (.tryRecv "vx.chCursorPos") ∧
+    (VaxisModel.Model.CursorBody.cursorPositionModel true 0 0).1.getLast? = some (.store "vx.reqCursorPos" false) := by decide
 
 /-! ## The end-to-end event theorem over the interpreted source -/
 
